@@ -3,7 +3,15 @@ import glob, json, os, re
 ROOT = os.path.dirname(os.path.dirname(os.path.abspath(__file__)))
 
 def seeds_table():
-    rows = ['| seed | property | what it needs to manifest | refuted obligation(s) | note |', '|---|---|---|---|---|']
+    metas = [json.load(open(os.path.join(d, 'meta.json'))) for d in sorted(glob.glob(os.path.join(ROOT, 'seeded', '*')))]
+    notes = [str(m.get('strengthening_needed', '') or '') for m in metas]
+    noted = [n for n in notes if n and not n.startswith('caught as built')]
+    missed = [n for n in noted if 'MISSED' in n or 'exit 0' in n or 'exit 3' in n or 'did not terminate' in n]
+    bounded = [n for n in noted if 'BOUNDED' in n or 'bounded stand-in' in n.lower()]
+    rows = ['**%d seeded changes are kept; %d were refuted by a named obligation as the contracts stood; %d needed a strengthening first '
+            '(of these, %d were missed outright or left the check undecided at first; %d are / were caught by a labelled bounded stand-in rather than a proof obligation). '
+            'All %d now make their check exit 1 (`tools/rerun_seeds.sh`).**' % (len(metas), len(metas) - len(noted), len(noted), len(missed), len(bounded), len(metas)), '',
+            '| seed | property | what it needs to manifest | refuted obligation(s) | note |', '|---|---|---|---|---|']
     for d in sorted(glob.glob(os.path.join(ROOT, 'seeded', '*'))):
         m = json.load(open(os.path.join(d, 'meta.json')))
         need = str(m.get('needs_to_manifest', '')).replace('\n', ' ').replace('|', '/')
